@@ -302,11 +302,14 @@ def run_pair(exe, script, work, tag, backend):
 
 
 KNOWN_DIVERGENCES = [
-    # (key, predicate on (script line, wrapper line, direct line))
-    ("wrapper:cg_1to1_read_global_f:status-no-interface",
-     lambda op, w, d: op.startswith("1to1_read_global ") and w.startswith("1to1_read_global ier=1 ") and d.startswith("1to1_read_global ier=0 ")),
-    ("wrapper:cg_goto_fc1:ok-on-invalid-file",
-     lambda op, w, d: op.startswith("goto ") and w == "goto ier=0 open=0" and d == "goto ier=1 open=0"),
+    # (key, predicate on (script line, wrapper line, direct line)) -- canonical keys of divergences listed as `known:` in
+    # KNOWN_FINDINGS.txt.  Empty: the two divergences found while building this check (cg_1to1_read_global_f on a base
+    # without interfaces, cg_goto_fc1 on a file that is not open) were repaired in /repo (f111087, 0fdcd3c); their
+    # witnesses are in corpus/C20/ and a regression is an ordinary VIOLATION.
+    # Still open after f111087: with an Unstructured zone in the base cg_n1to1_global counts 0 (OK) but
+    # cg_1to1_read_global returns CG_ERROR; the wrapper returns early with 0 and never calls it.
+    ("wrapper:cg_1to1_read_global_f:ok-with-unstructured-zone",
+     lambda op, w, d: op.startswith("1to1_read_global ") and w.startswith("1to1_read_global ier=0 ") and d.startswith("1to1_read_global ier=1 ")),
 ]
 
 
@@ -497,7 +500,27 @@ def run(ck):
     known_seen = {}
     stats = {"kind": {}, "len": {}}
     found_fail = False
-    for j in range(nsc):
+    # minimized past failures first
+    cdir = os.path.join(vlib.ROOT, "corpus", "C20")
+    corpus = []
+    if os.path.isdir(cdir):
+        for fn_ in sorted(os.listdir(cdir)):
+            if fn_.endswith(".script"):
+                corpus.append((fn_, [l.strip() for l in open(os.path.join(cdir, fn_)) if l.strip() and not l.startswith("#")]))
+    for fn_, script in corpus:
+        for backend in ("adf", "hdf5"):
+            fails, detail = pair_fails(hw, script, ck.work, "corpus", backend, known_out=known_seen)
+            dist["scenarios"] += 1
+            dist["scenario_lines"] += len(script)
+            ck.cov["traces_validated_against_impl"] += 1
+            for l in script:
+                ck.case(hashlib.sha1((backend + l).encode()).hexdigest(), sample=None)
+            if fails and not found_fail:
+                ck.violation({"level": "wrapper", "backend": backend, "kind": "corpus:" + fn_, "script": script, "detail": detail,
+                              "oracle": "wrapper call in Fortran convention == direct C call with the equivalent arguments (status, outputs, file tree); ASan/UBSan"})
+                found_fail = True
+    dist["corpus_scripts"] = len(corpus)
+    for j in range(nsc if not found_fail else 0):
         for backend in ("adf", "hdf5"):
             for kind, gen in (("mll", gen_mll_script), ("cgio", gen_cgio_script)):
                 script = gen(ck.rng, stats)
